@@ -220,10 +220,68 @@ def base_trait_case(case):
     return dict(reproduced=bool(violated), violated=violated)
 
 
+def link_notification_case(case):
+    """C11 (statement): while linked, a change of the target attribute on the current delegate notifies handlers of the
+    deferring attribute with the new value -- for a delegate given to the constructor, a default delegate first touched
+    quietly, a computed delegate (property), and again after the link was broken by a local value and restored by del."""
+    from traits.api import HasTraits, Instance, Str, DelegatesTo, PrototypedFrom, Property
+    violated = []
+
+    class Parent(HasTraits):
+        name = Str("p")
+        title = Str("t")
+    the_parent = Parent()
+
+    class Stored(HasTraits):
+        parent = Instance(Parent)
+        name = DelegatesTo("parent")
+        title = PrototypedFrom("parent")
+
+    class Default(HasTraits):
+        parent = Instance(Parent, ())
+        name = DelegatesTo("parent")
+        title = PrototypedFrom("parent")
+
+    class Computed(HasTraits):
+        parent = Property()
+        name = DelegatesTo("parent")
+        title = PrototypedFrom("parent")
+
+        def _get_parent(self):
+            return the_parent
+
+    def probe(label, obj, parent_of):
+        seen = []
+        obj.on_trait_change(lambda o, n, old, new: seen.append((n, new)), "name")
+        obj.on_trait_change(lambda o, n, old, new: seen.append((n, new)), "title")
+        parent_of(obj).name = label + "-n"
+        parent_of(obj).title = label + "-t"
+        if seen != [("name", label + "-n"), ("title", label + "-t")]:
+            violated.append("%s: changes of the target on the delegate were reported as %r" % (label, seen))
+        del seen[:]
+        obj.title = "local"            # breaks the link of the prototyped attribute
+        del seen[:]
+        parent_of(obj).title = label + "-t2"
+        if seen:
+            violated.append("%s: link broken by a local value, yet a target change was reported: %r" % (label, seen))
+        del obj.title                  # restores it
+        del seen[:]
+        parent_of(obj).title = label + "-t3"
+        if seen != [("title", label + "-t3")]:
+            violated.append("%s: link restored by del, target change reported as %r" % (label, seen))
+    probe("stored delegate", Stored(parent=Parent()), lambda o: o.parent)
+    probe("default delegate", Default(), lambda o: o.parent)
+    q = Default()
+    q.trait_setq(name="quiet")         # the first touch of the default delegate happens with notifications off
+    probe("default delegate first touched quietly", q, lambda o: o.parent)
+    probe("computed delegate", Computed(), lambda o: the_parent)
+    return dict(reproduced=bool(violated), violated=violated[:6])
+
+
 def main():
     case = json.loads(sys.stdin.read())
     out = {"listener": listener_case, "setattr_delegate": setattr_delegate_case,
-           "getattr_delegate": getattr_delegate_case, "base_trait": base_trait_case}[case["family"]](case)
+           "getattr_delegate": getattr_delegate_case, "base_trait": base_trait_case, "link_notification": link_notification_case}[case["family"]](case)
     print(json.dumps(out, default=repr))
 
 
